@@ -23,6 +23,7 @@ def run(ctx: Ctx) -> Collector:
     _request_shapes(ctx, c)
     _v3v2(ctx, c)
     _v2v1(ctx, c)
+    _transparent(ctx, c)
     _gating(ctx, c)
     _versions(ctx, c)
     _local_init(ctx, c)
@@ -35,7 +36,7 @@ def _request_shapes(ctx: Ctx, c: Collector) -> None:
     from .sites import typer_of
     typer = typer_of(ctx.prog)
     proxies = {ci.qualname for ci in ctx.prog.subclasses("mosaik.proxies.Proxy")}
-    for fi in ctx.prog.all_functions():
+    for fi in analysis_units(ctx.prog):
         if fi.module.name == "mosaik.adapters":
             continue
         s = summarise(ctx.prog, fi)
@@ -170,9 +171,25 @@ def _v3v2(ctx: Ctx, c: Collector) -> None:
     s = ctx.summ(qn)
     me = T.var(fi.params[0])
     meta = ("attr", ("attr", me, "_out"), "meta")
-    okm = any(e.term == call(("attr", meta, "setdefault"), T.const("type"), T.const("time-based")) and not e.guards for e in s.of_kind("call")) \
-        and len(s.returns) == 1 and s.returns[0].term == meta
-    c.check(okm, "feature", qn, "missing type (v3): defaults to time-based", "a missing simulator type is not defaulted to 'time-based' in the adapted meta", fi.loc)
+    okm = any(unalias(e.term, s, fi) == call(("attr", meta, "setdefault"), T.const("type"), T.const("time-based")) and not e.guards for e in s.of_kind("call")) \
+        and len(s.returns) == 1 and unalias(s.returns[0].term, s, fi) == meta
+    pr = [] if okm else ["a missing simulator type is not defaulted to 'time-based' in the adapted meta"]
+    # the default is written into the object one read of `_out.meta` returns and the object another read
+    # returns is handed out: every `meta` the adapter can wrap must return the same stored object each time
+    reads = sum(1 for n in ast.walk(fi.node) if isinstance(n, ast.Attribute) and n.attr == "meta" and isinstance(n.value, ast.Attribute) and n.value.attr == "_out")
+    if okm and reads > 1:
+        for ci in ctx.prog.subclasses("mosaik.proxies.Proxy"):
+            mfi = ci.methods.get("meta")
+            if mfi is None or ci.qualname == V3V2:
+                continue
+            ms = summarise(ctx.prog, mfi)
+            m_me = T.var(mfi.params[0])
+            rv = folded_return(ms)
+            stable = rv is not None and T.strip(rv)[0] == "attr" and T.path_root(T.strip(rv)) == m_me
+            if ms.returns and not stable and not (ci.qualname == "mosaik.proxies.Proxy"):
+                pr.append(f"{ci.name}.meta returns {T.show(rv)[:60]}, a new object on every read: the 'type' default that V3ToV2Adapter.meta writes with setdefault() goes into a throw-away copy "
+                          "and the meta it returns (a second read) lacks it")
+    c.add("feature", qn, "missing type (v3): defaults to time-based", VIOLATED if pr else DISCHARGED, "; ".join(pr), fi.loc)
 
 
 def _v2v1(ctx: Ctx, c: Collector) -> None:
@@ -204,6 +221,39 @@ def _v2v1(ctx: Ctx, c: Collector) -> None:
         return
     pr = list(dict.fromkeys(pr))
     c.add("feature", qn, "setup_done (v2.2): answered locally, not forwarded", VIOLATED if pr else DISCHARGED, "; ".join(pr), fi.loc)
+
+
+def _transparent(ctx: Ctx, c: Collector) -> None:
+    """Adapters change requests, never outcomes: a forward to the wrapped proxy is not inside the
+    body of a `try` whose handler swallows the exception (the handlers there are meant for the
+    unpacking of malformed requests).  Otherwise an error raised by the simulator is caught by
+    the adapter and -- with the fall-through forward -- the request is sent a second time, unadapted."""
+    n = 0
+    for ci in ctx.prog.subclasses("mosaik.adapters.Adapter"):
+        for mname in ("send", "stop"):
+            fi = ci.methods.get(mname)
+            if fi is None:
+                continue
+            s = summarise(ctx.prog, fi)
+            me = T.var(fi.params[0])
+            fwd = [e for e in s.of_kind("call") if e.term[1][0] == "attr" and e.term[1][1] == ("attr", me, "_out")]
+            if not fwd:
+                continue
+            n += 1
+            pr = []
+            for e in fwd:
+                for tid, role in e.tries:
+                    if role != "body":
+                        continue
+                    handlers = [h for h in s.of_kind("test") if h.term[0] == "except" and (tid, "handler") in h.tries]
+                    for h in handlers:
+                        inside = [x for x in s.events if (tid, "handler") in x.tries and x.idx > h.idx and (not handlers or all(x.idx < h2.idx for h2 in handlers if h2.idx > h.idx))]
+                        if not any(x.kind == "raise" for x in inside):
+                            pr.append(f"the forward {T.show(e.term)[:60]} (line {e.lineno}) is inside a try whose `except {T.show(h.term[1])}` does not re-raise: "
+                                      "an error raised by the simulator is swallowed by the adapter" + (" and the request is forwarded again by the code after the try" if any(f.idx > e.idx and not f.tries for f in fwd) else ""))
+            c.add("feature", fi.qualname, "errors from the wrapped proxy propagate unchanged", VIOLATED if pr else DISCHARGED, "; ".join(pr), fi.loc)
+    if n < 3:
+        raise AnalysisError(f"R23: only {n} forwarding adapter methods found (Adapter.send/stop, V3ToV2Adapter.send, V2ToV1Adapter.send confirmed by hand)")
 
 
 def _gating(ctx: Ctx, c: Collector) -> None:
@@ -263,11 +313,30 @@ def _gating(ctx: Ctx, c: Collector) -> None:
             return None if inner is None else inner + [t[1][1].rsplit(".", 1)[-1]]
         return None
 
+    def replay(t: Term, v: List[int]) -> Term:
+        """The value of a re-assigned local (`proxy = Adapter(proxy)` in a loop over a table of
+        thresholds, or in consecutive ifs) for one representative version: its assignments are
+        replayed in order, each under its own guards."""
+        t = T.strip(t)
+        if t[0] != "var":
+            return t
+        cur: Optional[Term] = None
+        for b in s.of_kind("bind"):
+            if b.term[1] != t:
+                continue
+            try:
+                if not all(holds(T.guard_term(g), v) for g in b.guards if T.contains((g,), ver) and g not in rets[0].guards):
+                    continue
+            except boolfn.NotBoolean:
+                return t
+            cur = T.replace(T.strip(b.term[2]), {t: cur}) if cur is not None else T.strip(b.term[2])
+        return cur if cur is not None else t
+
     pr = []
     try:
         for v in ([1], [2], [2, 0], [2, 1, 3], [2, 2], [2, 4, 1], [3], [3, 0], [3, 0, 16]):
             want = ["V2ToV1Adapter", "V3ToV2Adapter"] if v < [2, 2] else ["V3ToV2Adapter"] if v < [3] else []
-            got = chain(res, v)
+            got = chain(replay(res, v), v)
             if got is None:
                 c.unk("gate", ADAPT, "adapter chain", "returned proxy not understood as a chain of adapters", loc)
                 return
@@ -306,7 +375,10 @@ def _gating(ctx: Ctx, c: Collector) -> None:
     expl = None
     for b in s.of_kind("bind"):
         if b.term[1] == T.var("explicit_version") and b.term[2] != T.NONE:
-            expl = b.term[2]
+            expl = T.strip(b.term[2])
+            # `parse(x) if x is not None else None`: the parser is the branch that is not None
+            while expl[0] in ("ifexp", "phi") and T.NONE in (expl[2], expl[3]):
+                expl = T.strip(expl[3] if expl[2] == T.NONE else expl[2])
     if not mism:
         pr.append("a reported version different from the configured api_version is not rejected")
     else:
